@@ -4,7 +4,7 @@ import itertools
 from common import standard_prologue, run_hx, run_drv, enc, dec
 
 CLAIM = {
-    "technique": "Lean 4 theorems about a model of Golden::new/assert (world = file x env var) + exhaustive cross-product correspondence against the real okane_golden crate",
+    "technique": "Lean 4 theorems about a model of Golden::new/assert (world = file x env var x whether the path can be written) + exhaustive cross-product correspondence against the real okane_golden crate",
     "text": ("Proof: the golden helper is modelled as pure functions over a world (file content - text, not UTF-8, or a directory -, "
              "whether the path can be written, UPDATE_GOLDEN value at new-time and at assert-time); theorems C20_compare / C20_readonly / "
              "C20_missing / C20_update / C20_env state the property for all contents, all `got` strings and all environment values; "
